@@ -57,14 +57,14 @@ type incFail struct{ tok, kind, detail string }
 var tokenRe = regexp.MustCompile(`/(tk[0-9]+)`)
 
 type originRec struct {
-	Token   string
-	Msg     *h1.Msg
-	Node    string
-	ConnID  string
-	Gzip    bool   // the response was sent gzip-coded
-	RawBody []byte // body bytes as put on the wire (after content coding, before transfer coding)
-	Early    bool  // replied before reading the request body
-	BodyDone bool  // (Early) the whole request body arrived afterwards
+	Token    string
+	Msg      *h1.Msg
+	Node     string
+	ConnID   string
+	Gzip     bool   // the response was sent gzip-coded
+	RawBody  []byte // body bytes as put on the wire (after content coding, before transfer coding)
+	Early    bool   // replied before reading the request body
+	BodyDone bool   // (Early) the whole request body arrived afterwards
 }
 
 type clientRec struct {
@@ -1018,7 +1018,8 @@ func (w *h1World) checkRequest(rec *clientRec, or *originRec, siteUser, sitePass
 	// compare
 	special := map[string]bool{"host": true, "via": true, "x-forwarded-for": true, "accept-encoding": true, "user-agent": true,
 		"content-length": true, "transfer-encoding": true, "connection": true}
-	for k, want := range exp {
+	for _, k := range sortedKeysOf(exp) {
+		want := exp[k]
 		if special[k] {
 			continue
 		}
@@ -1197,7 +1198,8 @@ func (w *h1World) checkResponse(rec *clientRec, or *originRec, ex *h1Exchange) {
 		applyRule(exp, rule)
 	}
 	framing := map[string]bool{"content-length": true, "transfer-encoding": true, "connection": true, "trailer": true}
-	for k, want := range exp {
+	for _, k := range sortedKeysOf(exp) {
+		want := exp[k]
 		if !eqStrings(gm[k], want) {
 			env.Fail("resp-e2e-field", c.Route+"/"+k, "%s: origin sent %q = %q, client received %q", tok, k, want, gm[k])
 		}
